@@ -15,13 +15,23 @@ RI(n) == <<n,1>>
 Zero == <<0,1>>
 One == <<1,1>>
 Half == <<1,2>>
-RAdd(a,b) == Norm(a[1]*b[2]+b[1]*a[2], a[2]*b[2])
-RSub(a,b) == Norm(a[1]*b[2]-b[1]*a[2], a[2]*b[2])
-RMul(a,b) == Norm(a[1]*b[1], a[2]*b[2])
-RDiv(a,b) == Norm(a[1]*b[2], a[2]*b[1])
+\* sums over the least common denominator and products with cross-cancellation keep the
+\* intermediate integers small (TLC integers are 32 bit)
+RAdd(a,b) == IF a[2] = b[2] THEN Norm(a[1]+b[1], a[2]) ELSE
+             LET g == GCD(a[2], b[2]) IN Norm(a[1]*(b[2] \div g) + b[1]*(a[2] \div g), (a[2] \div g)*b[2])
+RSub(a,b) == IF a[2] = b[2] THEN Norm(a[1]-b[1], a[2]) ELSE
+             LET g == GCD(a[2], b[2]) IN Norm(a[1]*(b[2] \div g) - b[1]*(a[2] \div g), (a[2] \div g)*b[2])
+RMul(a,b) == IF a[1] = 0 \/ b[1] = 0 THEN <<0,1>> ELSE
+             LET g1 == GCD(AbsI(a[1]), b[2])  g2 == GCD(AbsI(b[1]), a[2]) IN
+             <<(a[1] \div g1)*(b[1] \div g2), (a[2] \div g2)*(b[2] \div g1)>>
+\* a / b; a zero divisor only occurs in values that the algorithms discard (trimmed zero-length pieces)
+RDiv(a,b) == IF b[1] = 0 THEN (IF a[1] = 0 THEN <<0,1>> ELSE <<1,0>>)
+             ELSE RMul(a, IF b[1] < 0 THEN <<-b[2], -b[1]>> ELSE <<b[2], b[1]>>)
 RNeg(a) == <<-a[1], a[2]>>
-RLt(a,b) == a[1]*b[2] < b[1]*a[2]
-RLe(a,b) == a[1]*b[2] <= b[1]*a[2]
+RLt(a,b) == IF a[2] = b[2] THEN a[1] < b[1] ELSE
+            LET g == GCD(a[2], b[2]) IN a[1]*(b[2] \div g) < b[1]*(a[2] \div g)
+RLe(a,b) == IF a[2] = b[2] THEN a[1] <= b[1] ELSE
+            LET g == GCD(a[2], b[2]) IN a[1]*(b[2] \div g) <= b[1]*(a[2] \div g)
 RMax(a,b) == IF RLt(a,b) THEN b ELSE a
 RMin(a,b) == IF RLt(a,b) THEN a ELSE b
 RAbs(a) == <<AbsI(a[1]), a[2]>>
